@@ -344,6 +344,21 @@ pub fn run(rng: &mut Rng, tier: &str, out: &str) -> Report {
         let orphan: Vec<Change> = side.get_changes(&h1);
         let with_orphan = ri % 3 == 0 && !orphan.is_empty() && side.get_heads() != h1;
         let mut doc = w.writer.document().clone();
+        if ri % 4 == 1 {
+            // values DEFLATE cannot shrink: raw value columns above the compression threshold that stay uncompressed
+            use automerge::transaction::Transactable;
+            let n = rng.range(300, 1500) as usize;
+            let blob = rng.bytes(n);
+            let keys = ["blob", "blob2"];
+            let nk = rng.range(1, 2) as usize;
+            let _ = doc.transact::<_, _, automerge::AutomergeError>(|tx| {
+                for k in keys.iter().take(nk) {
+                    tx.put(automerge::ROOT, *k, automerge::ScalarValue::Bytes(blob.clone()))?;
+                }
+                Ok(())
+            });
+            rep.count("c11_incompressible_values");
+        }
         if with_orphan {
             let _ = doc.apply_changes(orphan.clone());
             rep.count("c11_with_orphans");
